@@ -135,6 +135,9 @@ func gen(t *rapid.T) Case {
 		// a +towgs84 clause written next to a named datum (of another number of terms than the name's own, or the same):
 		// the name's table entry replaces the clause
 		for _, d := range []*projkit.Def{&c.Src, &c.Dst} {
+			if d.DatumKind == "name" && rapid.IntRange(0, 7).Draw(t, "nullgridfirst") == 3 {
+				d.NullGridFirst = true // "+nadgrids=@null +datum=X": the datum that is named last counts, in proj4js and here
+			}
 			if d.DatumKind == "name" && rapid.IntRange(0, 3).Draw(t, "clausenexttoname") == 1 {
 				n := rapid.SampledFrom([]int{3, 7}).Draw(t, "clauseterms")
 				d.Towgs = make([]float64, n)
